@@ -27,7 +27,7 @@ def run_solve(cases, tag, timeout=1800, race=False):
     for c in cases:
         inp_lines = G.case_lines(c["model"], [])
         # keep json/gopt/build lines only
-        keep = [l for l in inp_lines if l.startswith(("json ", "gopt ", "build"))]
+        keep = [l for l in inp_lines if l.startswith(("json ", "gopt ", "build", "user "))]
         blocks.append((c["id"], keep + [settings_str(c["settings"])]))
     C.write_cases(cf, blocks)
     binary = C.HARNESS_RACE if race else C.HARNESS
